@@ -25,6 +25,15 @@
 (*    MEval            the caching evaluator (with the Buggy_* switches    *)
 (*                     of the negative controls)                           *)
 (*                                                                         *)
+(* Round 2: trees may carry EVERY node kind of Expr.tla as a host of       *)
+(* operations (calls with a call / a conditional in the function position, *)
+(* calls with keyword arguments, subscripts, lookups, conditionals,        *)
+(* comparisons, logical / bitwise nodes, min / max, tuples).  The tagger's *)
+(* IdentityMapper handlers are transcribed with their per-handler "nothing *)
+(* changed -> return the original node" shortcut (CheckedPos, IdMap), the  *)
+(* evaluator with Python's laziness (if / any / all: MEval, Reached).      *)
+(* InScope: the lists the sharing sentences of the statement speak about.  *)
+(*                                                                         *)
 (* Assumption (stated in the evidence): inside one generated case no two   *)
 (* constants are == without being identical (no 2 next to 2.0 or True      *)
 (* next to 1), so Python's == on trees is structural equality of the       *)
